@@ -837,7 +837,10 @@ func (x *Exec) evalSpecCall2(sc *specCtx, e *ast.CallExpr) Value {
 	case "unbox":
 		// unbox(x, T): payload of interface x as T
 		need(2)
-		iv := arg(0).(IfaceV)
+		iv, isIface := arg(0).(IfaceV)
+		if !isIface {
+			return arg(0) // already a concrete value
+		}
 		tv := arg(1).(TypeV)
 		return x.unbox(sc.st, iv, tv.T)
 	case "bytes2str":
